@@ -505,14 +505,14 @@ fn race_plans(n: usize, tier: Tier, rng: &mut Rng) -> Vec<Plan> {
 pub fn run(tier: Tier, replay: Option<Value>) -> i32 {
     let run = Run::new("C07", "exploration", tier, replay.clone());
     let is_race_replay = replay.as_ref().and_then(|r| r.get("race")).is_some();
-    if !is_race_replay && replay.as_ref().and_then(|r| r.get("many_hunks")).is_none() {
-        let n = tier.pick(150, 6000);
+    let scale_replay = replay.as_ref().and_then(|r| r.get("many_hunks")).is_some();
+    let n = tier.pick(150, 6000);
+    if replay.is_none() {
+        super::alongside(&run, "the many-hunks history", || many_hunks(&run), || run.par_cases(n, super::threads(), |case| one_history(&run, case)));
+    } else if scale_replay {
+        super::alongside(&run, "the many-hunks history", || many_hunks(&run), || ());
+    } else if !is_race_replay {
         run.par_cases(n, super::threads(), |case| one_history(&run, case));
-    }
-    if replay.is_none() || replay.as_ref().and_then(|r| r.get("many_hunks")).is_some() {
-        if let Err(m) = crate::report::guard(|| many_hunks(&run)) {
-            run.inconclusive(format!("harness error in the many-hunks history: {m}"));
-        }
     }
     if replay.is_none() || is_race_replay {
         for case in 0..tier.pick(3u64, 16) {
